@@ -39,7 +39,7 @@ static dispatch_queue_t q;
 static _Atomic uint64_t stamp; static uint64_t now(void) { return atomic_fetch_add(&stamp, 1) + 1; }
 static _Atomic int inside;                       // items of q currently inside their function
 static struct { uint64_t n, hash; } chain;       // plain record handed from item to item on the serial queue
-static _Atomic int nfail; static _Atomic long n_items, n_async_done, n_async_sub;
+static _Atomic int nfail; static _Atomic long n_items, n_async_done, n_async_sub, n_sync_done, n_feed;
 static _Atomic long st_self_run, st_drainer_run, st_overlap, st_early, st_chain, st_pay, st_order;
 static int ncalls, nclients, nfeeders, mix;
 static volatile int stop_feed;
@@ -118,7 +118,9 @@ static void *client(void *arg) {
 				it->prev = last; last = it;
 				submit_async(it);
 			}
-			while (atomic_load(&n_async_sub) - atomic_load(&n_async_done) > 40 && !stop_feed) usleep(50);
+			atomic_fetch_add(&n_feed, burst);
+			// bounded backlog, and bounded work per synchronous call (the trace size must not depend on how slow the machine is)
+			while ((atomic_load(&n_async_sub) - atomic_load(&n_async_done) > 40 || atomic_load(&n_feed) > 10 * (atomic_load(&n_sync_done) + 4)) && !stop_feed) usleep(50);
 			if (xs(&t->rng) & 1) usleep((useconds_t)(xs(&t->rng) % 150));
 		}
 		return NULL;
@@ -139,6 +141,7 @@ static void *client(void *arg) {
 		else dispatch_async_and_wait_f(q, it, item_fn);
 		dv_user(DVU_RET, kind, (unsigned long long)it->serial, 0);
 		it->t_ret = now();
+		atomic_fetch_add(&n_sync_done, 1);
 		// the call returns only after its item has finished, exactly once
 		uint64_t te = atomic_load(&it->t_end);
 		if (atomic_load(&it->runs) != 1) FAIL("%s of item %d returned with run count %d", kind == K_AAW ? "dispatch_async_and_wait" : "dispatch_sync", it->serial, atomic_load(&it->runs));
